@@ -556,9 +556,9 @@ theorem tr_mapcatMatch_const (n K : Nat) (g : Env) (H : Heap) (am pa fa : Nat) (
 
 
 /-- an array pattern: the variable check comes first (its error is the answer whatever the message
-    is), and a message value that is not an array does not match -/
+    is), and a message value that is not an array (a scalar or a map) does not match -/
 theorem tr_match_array_head (n : Nat) (g : Env) (H : Heap) (m f : GV) (ps : List GV) (ab : Nat)
-    (hf : ∀ xs, f ≠ .slice xs) (hfn : ∀ a, f ≠ .ref a) :
+    (hf : ∀ xs, f ≠ .slice xs) :
     callFn (n + ps.length + 120) matchProg g ".match" m [.slice ps, f, .ref ab] H =
       (match getVarG ps "" [] with
        | .error e => .ok ([.nil, .err e], H)
@@ -582,12 +582,10 @@ theorem tr_match_array_head (n : Nat) (g : Env) (H : Heap) (m f : GV) (ps : List
     obtain ⟨v, acc⟩ := r
     have hff : ∀ xs, fudgeG f ≠ .slice xs := by
       intro xs h; cases f <;> simp [fudgeG] at h; exact hf xs (by rw [h])
-    have hfr : ∀ a, fudgeG f ≠ .ref a := by
-      intro a h; cases f <;> simp [fudgeG] at h; exact hfn a (by rw [h])
-    generalize fudgeG f = ff at hff hfr
+    generalize fudgeG f = ff at hff
     cases ff with
     | slice xs => exact absurd rfl (hff xs)
-    | ref a => exact absurd rfl (hfr a)
+    | ref a => cases hh : heapGet H a <;> simp [hh]
     | _ => simp
 
 
